@@ -87,6 +87,9 @@ pxgstrf_scheduler(const int_t pnum, const int_t n, const int_t *etree,
 #ifdef PROFILE
     double t;
 #endif
+#ifdef SLU_MT_VERIF
+    long verif_finished = *cur_pan;
+#endif
 
     jcol = *cur_pan;
     if ( jcol != EMPTY ) {
@@ -104,6 +107,7 @@ pxgstrf_scheduler(const int_t pnum, const int_t n, const int_t *etree,
 #ifdef PROFILE
     TIC(t);
 #endif
+    SLU_MT_VERIF_EVENT(SLU_EV_SCHED_ENTER, pnum, verif_finished, 0, 0, pxgstrf_shared);
 #if ( MACH==SUN )
     mutex_lock( &pxgstrf_shared->lu_locks[SCHED_LOCK] );
 #elif ( MACH==DEC || MACH==PTHREAD )
@@ -238,6 +242,8 @@ pxgstrf_scheduler(const int_t pnum, const int_t n, const int_t *etree,
     } /* if jcol != empty */
 
     *cur_pan = jcol;
+    SLU_MT_VERIF_EVENT(SLU_EV_SCHED_CS, pnum, verif_finished, jcol,
+		       (jcol != EMPTY ? *bcol : EMPTY), pxgstrf_shared);
 
 #if ( DEBUGlevel>=1 )
     printf("(%d) Exit C.S. tasks_remain %d, cur_pan %d\n", 
